@@ -1701,7 +1701,7 @@ func (d *Decoder) decodeDeprecatedRestrictedType(
 ) cadence.Type {
 	// Backwards-compatibility for format <v1.0.0:
 	if !d.backwardsCompatible {
-		panic("Restriction kind is not supported")
+		panic(errors.NewDefaultUserError("Restriction kind is not supported"))
 	}
 
 	ty := getKey(d, obj, typeKey, func(valueJSON any) cadence.Type {
